@@ -153,12 +153,15 @@ func (s *state) walk(node ast.Node) {
 	case *ast.CallNode:
 		s.visitCall(node)
 	case *ast.LetValueNode:
-		s.jsln("var ", s.scope.makevar(node.Name), " = ", node.Expr, ";")
+		// the value is translated before the variable is in scope
+		var value = s.block(node.Expr)
+		s.jsln("var ", s.scope.makevar(node.Name), " = ", value, ";")
 	case *ast.LetContentNode:
 		var oldBufferName = s.bufferName
-		s.bufferName = s.scope.makevar(node.Name)
+		s.bufferName = s.scope.newname(node.Name)
 		s.jsln("var ", s.bufferName, " = '';")
 		s.walk(node.Body)
+		s.scope.bind(node.Name, s.bufferName)
 		s.bufferName = oldBufferName
 
 	// Values ----------
@@ -488,7 +491,7 @@ func (s *state) visitCall(node *ast.CallNode) {
 				dataExpr += param.Key + ": " + s.block(param.Value)
 			case *ast.CallParamContentNode:
 				var oldBufferName = s.bufferName
-				s.bufferName = s.scope.makevar("param")
+				s.bufferName = s.scope.newname("param")
 				s.jsln("var ", s.bufferName, " = '';")
 				s.walk(param.Content)
 				dataExpr += param.Key + ": " + s.bufferName
